@@ -19,7 +19,7 @@ def _init(flag_bits):
 def _job(job):
     rr = _state['rr']
     drv = _state['driver']
-    out = {'id': job['id'], 'text': job['text'], 'meta': job.get('meta'), 'mismatches': [],
+    out = {'id': job['id'], 'text': job['text'], 'meta': job.get('meta'), 'mismatches': [], 'bm': bool(job.get('bm')),
            'n_cases': 0, 'undefined': 0, 'outcomes': {}, 'unsupported': None, 'compile': 'ok',
            'failpos_diff': 0, 'failpos_cmp': 0, 'flag_mismatch': None}
     try:
@@ -36,6 +36,16 @@ def _job(job):
         return out
     if w.bytes_mode is None:
         w.bytes_mode = bool(job.get('bm'))
+    dyn = None
+    if job.get('dyn'):
+        try:
+            with rr.time_limit(20):
+                dyn_module, _ = rr.compile_grammar(job['dyn']['text'])
+            dyn = (dyn_module.parse, job['dyn'].get('prefix', ''))
+        except Exception as exc:          # noqa: BLE001
+            out['compile'] = 'X (data-dependent variant) ' + type(exc).__name__ + ': ' + str(exc)[:200]
+            out['text'] = job['dyn']['text']
+            return out
     spans = bool(job.get('spans'))
     fuel = job.get('fuel', 64)
     for entry in job.get('entries', ['start']):
@@ -73,6 +83,18 @@ def _job(job):
                     if len(out['mismatches']) < 5 and job.get('cmp_failpos'):
                         out['mismatches'].append({'kind': 'failpos', 'entry': entry, 'pos': pos,
                                                   'input': _show(text), 'real': rv, 'gen': gv, 'peg': pv})
+            if dyn is not None and pos == 0:
+                dparse, prefix = dyn
+                dreal = rr.run_real(dparse, prefix + text, 0, spans=True)
+                dv = (dreal[0], strip(dreal[1]), dreal[2] - len(prefix)) if dreal[0] == 'S' else dreal
+                out['dyn_cases'] = out.get('dyn_cases', 0) + 1
+                if not _same(dv, pv, False):
+                    if len(out['mismatches']) < 5:
+                        out['mismatches'].append({'kind': 'spec', 'entry': entry, 'pos': pos,
+                                                  'input': _show(prefix + text), 'real': dv, 'gen': gv,
+                                                  'peg': pv, 'variant': job['dyn']['text'],
+                                                  'prefix': prefix, 'base_input': _show(text)})
+                    out['n_bad'] = out.get('n_bad', 0) + 1
             if bad_spec or bad_model:
                 if len(out['mismatches']) < 5:
                     out['mismatches'].append({'kind': 'spec' if bad_spec else 'model', 'entry': entry,
